@@ -1734,6 +1734,25 @@ func (r *Runner) statsCheck() error {
 	return nil
 }
 
+// statsLoadsOnly is the model-independent part of statsCheck: monotone counters, and load successes plus failures equal
+// to the number of loader invocations the harness's loaders counted.
+func (r *Runner) statsLoadsOnly() error {
+	if !r.Cfg.Stats {
+		return nil
+	}
+	s := r.Env.StatsSnapshot()
+	cur := [8]uint64{s.Hits, s.Misses, s.Evictions, s.EvictionWeight, s.LoadSuccesses, s.LoadFailures}
+	for i := range cur {
+		if cur[i] < r.prevStats[i] {
+			return r.fail(FStats, "stats counter %d decreased: %d -> %d", i, r.prevStats[i], cur[i])
+		}
+	}
+	if s.LoadSuccesses+s.LoadFailures != r.loads {
+		return r.fail(FStats, "after %s: stats loads=%d+%d, loader invocations=%d", r.cur.Op, s.LoadSuccesses, s.LoadFailures, r.loads)
+	}
+	return nil
+}
+
 // Quiesce runs all deferred tasks and maintenance, then checks the
 // quiescence-only facets (C04, C05, C06 completeness).
 func (r *Runner) Quiesce() error {
@@ -1883,6 +1902,13 @@ func RunScript(s *Script, facets Facet, known map[string]bool, finalQuiesce bool
 	}
 	for i := range s.Actions {
 		if err := r.Step(i, &s.Actions[i]); err != nil {
+			if errors.Is(err, ErrAbort) && r.Facets&FStats != 0 {
+				// the step ended on a disagreement this property does not judge (a wrong return value, say); the part of
+				// the statistics oracle that does not depend on the model is judged all the same
+				if e2 := r.statsLoadsOnly(); e2 != nil {
+					return r, e2
+				}
+			}
 			return r, err
 		}
 	}
